@@ -366,6 +366,7 @@ class Stack(object):
         self.ylen = [0] * self.L
         f = self.basefn
         self.fs = [f]
+        self.decs = []
         for lv in self.levels:
             cond, args, kwds = make_cond(lv['cond'])
             kw = dict(k=lv['k'], h=lv['h'])
@@ -373,7 +374,9 @@ class Stack(object):
                 kw['args'] = args
             if kwds is not None:
                 kw['kwds'] = kwds
-            f = getattr(mp, lv['ptype'])(cond, **kw)(f)
+            dec = getattr(mp, lv['ptype'])(cond, **kw)
+            f = dec(f)
+            self.decs.append(dec)
             self.fs.append(f)
         self.top = f
         ctx.label('depth:%d' % self.L)
@@ -441,6 +444,18 @@ class Stack(object):
             self.ctx.expect(ok, 'C15.clear_restores',
                             lambda: dict(probe=probe, fresh=v0, after_clear=again,
                                          note='value of every level at the probe point, fresh vs after clear()'))
+
+    def reuse_decorators(self, x):
+        """at the end of a case: every configured decorator object is used once more, on another function; the functions
+        decorated before go on returning their own function's value plus their penalty"""
+        before = [float(f(list(x))) for f in self.fs[1:]]
+        for dec in self.decs:
+            dec(lambda x, *a, **k: 54321.0)
+        after = [float(f(list(x))) for f in self.fs[1:]]
+        ok = all(a == b or (a != a and b != b) for a, b in zip(before, after))
+        self.ctx.expect(ok, 'C15.formula',
+                        lambda: dict(x=list(x), before=before, after=after, ptypes=[lv['ptype'] for lv in self.levels],
+                                     note='value changed after the same decorator object decorated another function'))
 
     def call(self, f, x, style):
         cont, how, extra = style
@@ -544,6 +559,7 @@ def run_eval(case, ctx):
     s.do_eval(case['x'], case['style'])
     # evaluation must not have advanced anything
     s.check_state('eval')
+    s.reuse_decorators(FL(case['x']))
 
 
 # --------------------------------------------------------------------------- state machine
